@@ -15,7 +15,7 @@ def siteOpt (p : Option Probe) (id : HookId) (key : Nat) : List LogEntry := matc
 
 /-! values, arguments, directives, variable definitions -/
 def mapValue (h : Hooks) (v : Value) : Value :=
-  match h.value with | some p => if p.hit (valueKey v) then .enum p.marker else v | none => v
+  match h.value with | some p => if p.hit (valueKey v) then p.value else v | none => v
 def changedValue (h : Hooks) (v : Value) : Bool := hitOpt h.value (valueKey v)
 def sitesValue (h : Hooks) (v : Value) : List LogEntry := siteOpt h.value .value (valueKey v)
 
